@@ -364,7 +364,14 @@ func r28OneDelivery(c *core.Ctx) {
 			c.Bad(R, "send-is-wrapped-feature/"+name, s.Pos(), "the value sent to the router is not wrapFeatureForTileMatrix(feature, tmID, geometry)")
 			continue
 		}
-		a0, a1, a2 := call.Call.Args[0], call.Call.Args[1], call.Call.Args[2]
+		// arguments by role (the constructor's parameters are told apart by their types; R29 checks that each is
+		// stored in the field of its type)
+		fi, ki, gi := wrapperParamRoles(wrapF.SSA)
+		if fi < 0 || ki < 0 || gi < 0 {
+			c.Bad(R, "send-is-wrapped-feature/"+name, s.Pos(), "wrapFeatureForTileMatrix does not take a feature, a tile matrix id and a geometry")
+			continue
+		}
+		a0, a1, a2 := call.Call.Args[fi], call.Call.Args[ki], call.Call.Args[gi]
 		c.Check(R, "send-carries-received-feature/"+name, s.Pos(), feature != nil && core.Unwrap(a0) == feature,
 			"wraps the feature received in this iteration", "the wrapped feature is not the one just received (attributes of another feature would be written)")
 		var header ssa.Instruction
@@ -868,4 +875,28 @@ func r30MultiPolygonMerge(c *core.Ctx) {
 	c.Check(R, "parts-merged-per-tile-matrix/"+f.Name, mid.Pos(), okAppend && retOK,
 		"each resulting polygon is appended to out[tmID] with the key of the same iteration, and out is returned", "resulting polygons are not appended per tile matrix under the key they were produced for (geometry of one tile matrix delivered to another)")
 	c.Floor(R, 2)
+}
+
+
+// wrapperParamRoles tells the three parameters of wrapFeatureForTileMatrix apart by type: the feature (interface
+// processing.Feature), the tile matrix id (an integer) and the geometry (geom.Geometry).  -1 where not found.
+func wrapperParamRoles(ctor *ssa.Function) (feature, key, geometry int) {
+	feature, key, geometry = -1, -1, -1
+	if ctor == nil {
+		return
+	}
+	for i, p := range ctor.Params {
+		ts := core.TypeShort(p.Type())
+		switch {
+		case ts == "processing.Feature":
+			feature = i
+		case strings.HasSuffix(ts, "geom.Geometry"):
+			geometry = i
+		default:
+			if b, ok := p.Type().Underlying().(*types.Basic); ok && b.Info()&types.IsInteger != 0 {
+				key = i
+			}
+		}
+	}
+	return
 }
